@@ -12,7 +12,9 @@ THEOREMS = ["C09.resume", "C09.first_sample_initialises", "C10.stats_complete",
             # exactness (C09b): the recorded entry IS the left fold of ema over the per-sample min/max in dataset order
             "C09.runtime_stats_exact", "C09.runtime_stats_exact_of_init", "C09.runtime_stats_exact_unique", "C09.resumed_stats_exact",
             "C09.const_stats_exact", "C09.const_stats_minmax", "C09.emaArr_f32", "C09.weights", "C09.emaSpec_order",
-            "C09.Ex.order_matters", "C09.Collision.not_exact", "C09.not_constNamed_of_unique"]
+            "C09.Ex.order_matters", "C09.Collision.not_exact", "C09.not_constNamed_of_unique",
+            # any number of resumed sessions = one pass over the concatenation; the cut points do not matter (C09c)
+            "C09c.resume_many", "C09c.split_irrelevant"]
 
 
 def splits(n):
@@ -36,7 +38,7 @@ def run(ctx):
                        "(const_stats_exact/_minmax); resumption equals the single pass (resume, resumed_stats_exact); order matters "
                        "(order_matters). The model is tied to Calibrator by exact comparison of every calibrate() call. The interpreter "
                        "producing the tensor contents is external (input of the model).")
-    common.proof_side(ctx, THEOREMS, modules=["QProps.C09", "QProps.C09b", "QProps.C10"])
+    common.proof_side(ctx, THEOREMS, modules=["QProps.C09", "QProps.C09b", "QProps.C09c", "QProps.C10"])
     drv = common.Driver()
     rng = ctx.rng
     n = 150 if ctx.tier == "quick" else 1200
